@@ -691,11 +691,10 @@ async def read_share_chunk(
     insofar as it doesn't always require a range.  In practice a range is
     always provided by the current callers.
     """
-    if length == 0:
-        # An HTTP byte range cannot be empty, so there is nothing we could
-        # ask the server for; like the Foolscap protocol, a zero-length read
-        # is an empty result.
-        return b""
+    # An HTTP byte range cannot be empty.  For a zero-length read ask for the
+    # one byte at ``offset`` and drop it: like the Foolscap protocol the result
+    # is empty, and a share that does not exist is still reported (404).
+    request_length = max(length, 1)
     url = client.relative_url(
         "/storage/v1/{}/{}/{}".format(
             share_type, _encode_si(storage_index), share_number
@@ -710,7 +709,7 @@ async def read_share_chunk(
         headers=Headers(
             # Ranges in HTTP are _inclusive_, Python's convention is exclusive,
             # but Range constructor does that the conversion for us.
-            {"range": [Range("bytes", [(offset, offset + length)]).to_header()]}
+            {"range": [Range("bytes", [(offset, offset + request_length)]).to_header()]}
         ),
         unbuffered=True,  # Don't buffer the response in memory.
     )
@@ -737,7 +736,7 @@ async def read_share_chunk(
                 "Content-Range was missing, invalid, or in format we don't support"
             )
         supposed_length = content_range.stop - content_range.start
-        if supposed_length > length:
+        if supposed_length > request_length:
             raise ValueError("Server sent more than we asked for?!")
         # It might also send less than we asked for. That's (probably) OK, e.g.
         # if we went past the end of the file.
@@ -752,7 +751,7 @@ async def read_share_chunk(
                 + f"didn't match Content-Range header ({supposed_length})"
             )
         body.seek(0)
-        return body.read()
+        return body.read()[:length]
     else:
         # Technically HTTP allows sending an OK with full body under these
         # circumstances, but the server is not designed to do that so we ignore
